@@ -249,17 +249,27 @@ pub fn project(e: &Ev) -> X {
 /// Faults attributed to one attempt: token -> callback entry that fired it.
 pub struct Faults<'a> {
     pub by_token: BTreeMap<String, &'a CbEntry>,
+    /// token -> how many callbacks of the same site ran on the same World before the one that fired
+    /// it (a scenario may hold the same step more than once)
+    pub occurrence: BTreeMap<String, usize>,
 }
 
 impl<'a> Faults<'a> {
     pub fn new(cb: &'a [CbEntry]) -> Self {
         let mut by_token = BTreeMap::new();
+        let mut occurrence = BTreeMap::new();
         for c in cb {
             if let Some(t) = &c.token {
                 by_token.insert(t.clone(), c);
+                let occ = if c.world.is_some() && c.kind == CbKind::Step {
+                    cb.iter().filter(|d| d.kind == c.kind && d.site == c.site && d.world == c.world && d.enter < c.enter).count()
+                } else {
+                    0
+                };
+                occurrence.insert(t.clone(), occ);
             }
         }
-        Self { by_token }
+        Self { by_token, occurrence }
     }
 }
 
@@ -287,10 +297,10 @@ pub fn expect_attempt(
     faults: &Faults<'_>,
 ) -> Expected {
     let mut remaining: BTreeSet<String> = tokens.clone();
-    let mut take = |kind: CbKind, site: &str| -> Option<(String, Outcome)> {
+    let mut take = |kind: CbKind, site: &str, occ: usize| -> Option<(String, Outcome)> {
         let found = remaining
             .iter()
-            .find(|t| faults.by_token.get(*t).is_some_and(|c| c.kind == kind && c.site == site))
+            .find(|t| faults.by_token.get(*t).is_some_and(|c| c.kind == kind && c.site == site) && faults.occurrence.get(*t).copied().unwrap_or(0) == occ)
             .cloned();
         found.map(|t| {
             remaining.remove(&t);
@@ -316,13 +326,13 @@ pub fn expect_attempt(
     if plan.before_hook {
         seq.push(X::HookStarted(Hk::Before));
         world_new_called = true;
-        if let Some((t, o)) = take(CbKind::WorldNew, crate::plan::SITE_WORLD) {
+        if let Some((t, o)) = take(CbKind::WorldNew, crate::plan::SITE_WORLD, 0) {
             finished_arg = format!("BeforeHookFailed({})", payload_text(&t, o, "failed to initialize World: "));
             deferred = Some(X::HookFailed { hk: Hk::Before, token: t });
         } else {
             world = true;
             callbacks.push(site_before(&sc.name));
-            if let Some((t, o)) = take(CbKind::Before, &site_before(&sc.name)) {
+            if let Some((t, o)) = take(CbKind::Before, &site_before(&sc.name), 0) {
                 finished_arg = format!("BeforeHookFailed({})", payload_text(&t, o, ""));
                 deferred = Some(X::HookFailed { hk: Hk::Before, token: t });
             } else {
@@ -330,6 +340,7 @@ pub fn expect_attempt(
             }
         }
     }
+    let mut seen_steps: BTreeMap<&str, usize> = BTreeMap::new();
     if deferred.is_none() {
         for (text, def, bg) in &sc.steps {
             seq.push(X::StepStarted { text: text.clone(), bg: *bg });
@@ -353,7 +364,7 @@ pub fn expect_attempt(
                 Def::One => {
                     if !world {
                         world_new_called = true;
-                        if let Some((t, o)) = take(CbKind::WorldNew, crate::plan::SITE_WORLD) {
+                        if let Some((t, o)) = take(CbKind::WorldNew, crate::plan::SITE_WORLD, 0) {
                             finished_arg =
                                 format!("StepFailed(Panic({}))", payload_text(&t, o, "failed to initialize `World`: "));
                             deferred = Some(X::StepFailed {
@@ -367,7 +378,8 @@ pub fn expect_attempt(
                         world = true;
                     }
                     callbacks.push(site_step(text));
-                    if let Some((t, o)) = take(CbKind::Step, &site_step(text)) {
+                    let occ = *seen_steps.entry(text.as_str()).and_modify(|n| *n += 1).or_insert(0);
+                    if let Some((t, o)) = take(CbKind::Step, &site_step(text), occ) {
                         finished_arg = format!("StepFailed(Panic({}))", payload_text(&t, o, ""));
                         deferred = Some(X::StepFailed {
                             text: text.clone(),
@@ -389,7 +401,7 @@ pub fn expect_attempt(
     if plan.after_hook {
         seq.push(X::HookStarted(Hk::After));
         callbacks.push(site_after(&sc.name));
-        if let Some((t, _)) = take(CbKind::After, &site_after(&sc.name)) {
+        if let Some((t, _)) = take(CbKind::After, &site_after(&sc.name), 0) {
             seq.push(X::HookFailed { hk: Hk::After, token: t });
             failed = true;
         } else {
